@@ -522,6 +522,11 @@ func g01Handle(repo string, w *Out) error {
 				order = append(order, strings.TrimSuffix(strings.TrimPrefix(sink, "p."), "("))
 				continue
 			}
+			if is, ok := s.(*ast.IfStmt); ok && f.Src(is.Cond) == "p.mitm" && is.Else == nil && len(is.Body.List) == 1 &&
+				f.Src(is.Body.List[0]) == `req.URL.Scheme = "https"` {
+				order = append(order, "mitmHttps") // requests read from an intercepted TLS session go out over TLS
+				continue
+			}
 			for _, kv := range [][2]string{{"p.fixRequestScheme(req)", "fixRequestScheme"}, {"reqUpType := upgradeType(req.Header)", "upgradeType"},
 				{`req.Header.Set("Upgrade", reqUpType)`, "readdUpgrade"}, {"p.shouldMITM(req)", "shouldMITM"}} {
 				if strings.Contains(txt, kv[0]) {
